@@ -638,6 +638,68 @@ static void run_pool(uint64_t seed, bool strict, bool seq) {
   P = nullptr;
 }
 
+// ------------------------------------------------------------------------------------------------
+// fixed cases outside the token model (no lock-step replay; a crash / sanitizer abort is the verdict)
+// handles: a pooled handle (unique_ptr<T, ObjectPool<T>::Deleter>) is move-assigned, swapped, erased from a
+//          vector: the object of the overwritten handle must go back to its pool, the moved one must arrive
+static void run_handles(uint64_t seed) {
+  PoolLedger ledger;
+  P = &ledger;
+  printf("RUN %lu mode=handles cap=0 batch=0 count=off pool=4 threads=1\n", (unsigned long)seed);
+  fflush(stdout);
+  {
+    Pool pool;
+    pool.reserve_and_clear(4);
+    pool.set_creator([] {
+      int id = ++P->next_id;
+      P->state[id] = 1;
+      ++P->created;
+      return std::unique_ptr<Obj>(new Obj(id));
+    });
+    Handle a = pool.pop();
+    Handle b = pool.pop();
+    int ida = a->id, idb = b->id;
+    a = std::move(b);   // Deleter::operator=(Deleter&&)
+    if (!a || a->id != idb) printf("0 ev ORACLE handle move-assign: target does not hold the moved object\n");
+    if (b) printf("0 ev ORACLE handle move-assign: source still holds an object\n");
+    if (pool.free_object_number() != 1) printf("0 ev ORACLE handle move-assign: overwritten object %d not returned to the pool (free=%zu)\n", ida, pool.free_object_number());
+    std::vector<Handle> v;
+    for (int i = 0; i < 3; ++i) v.push_back(pool.pop());
+    v.erase(v.begin());   // move-assigns the tail down
+    if (v.size() != 2 || !v[0] || !v[1]) printf("0 ev ORACLE handle vector erase lost a handle\n");
+    if (pool.free_object_number() != 1) printf("0 ev ORACLE handle vector erase: free=%zu, expected 1\n", pool.free_object_number());
+    v.clear();
+    a.reset();
+    if (pool.free_object_number() != 4) printf("0 ev ORACLE handles: %zu objects back in the pool, expected 4\n", pool.free_object_number());
+  }
+  if (P->created != P->destroyed) printf("0 ev ORACLE handles leak: created %ld destroyed %ld\n", P->created, P->destroyed);
+  printf("END\n");
+  fflush(stdout);
+  P = nullptr;
+}
+
+// batchdefault: BatchPageAllocator used with its default batch size (set_batch_size never called)
+static void run_batchdefault(uint64_t seed) {
+  Ledger ledger;
+  L = &ledger;
+  printf("RUN %lu mode=batchdefault cap=0 batch=16 count=off pool=0 threads=1\n", (unsigned long)seed);
+  fflush(stdout);
+  {
+    Recorder rec;
+    BatchPageAllocator b;
+    b.set_upstream(rec);
+    std::vector<void*> pages;
+    for (int i = 0; i < 20; ++i) pages.push_back(b.allocate());
+    std::set<void*> distinct(pages.begin(), pages.end());
+    if (distinct.size() != pages.size()) printf("0 ev ORACLE default batch allocator handed out a page twice\n");
+    for (void* p : pages) b.deallocate(p);
+  }
+  if (ledger.obtained != ledger.returned) printf("0 ev ORACLE default batch allocator: obtained %ld returned %ld after destruction\n", ledger.obtained, ledger.returned);
+  printf("END\n");
+  fflush(stdout);
+  L = nullptr;
+}
+
 int main(int argc, char** argv) {
   std::string mode = argc > 1 ? argv[1] : "cached";
   uint64_t seed0 = argc > 2 ? strtoull(argv[2], 0, 10) : 1;
@@ -646,6 +708,8 @@ int main(int argc, char** argv) {
     uint64_t seed = seed0 + (uint64_t)i;
     if (mode == "strict") run_pool(seed, true, false);
     else if (mode == "auto") run_pool(seed, false, false);
+    else if (mode == "handles") run_handles(seed);
+    else if (mode == "batchdefault") run_batchdefault(seed);
     else if (mode == "seq") {
       if (seed % 3 == 0) run_pool(seed, true, true); else run_pages(seed, "", true);
     } else if (mode == "cached" || mode == "heap" || mode == "counting" || mode == "batch" || mode == "batchheap") run_pages(seed, mode, false);
